@@ -67,6 +67,16 @@ pub struct SyncFaults {
     pub split10: bool,
     /// scripted requester: ask for everything up to the advertised heads (C05)
     pub scripted: bool,
+    /// concurrent activity on the server while it answers: when the server is parked at its
+    /// `at`-th decision point (after its first read), run `what` ("deliver" | "apply" | "clear")
+    #[serde(default)]
+    pub mid: Option<Mid>,
+}
+
+#[derive(Serialize, Deserialize, Clone, Debug, PartialEq)]
+pub struct Mid {
+    pub at: usize,
+    pub what: String,
 }
 
 #[derive(Serialize, Deserialize, Clone, Debug, PartialEq)]
